@@ -308,6 +308,7 @@ def run(ctx, prog, res):
     rule_r14(ctx, prog, res)
     rule_r15(ctx, prog, res)
     rule_r16(prog, res)
+    rule_r17(ctx, prog, res)
 
 
 def _or_roots(f, op, names, depth=0):
@@ -766,3 +767,36 @@ def rule_r16(prog, res):
         got = sorted(table.get(combo, []))
         r16.check(got == [want], {"operator": combo[0], "kind": combo[1], "combination": got}, "C01.R16:%s/%s" % combo,
                   "a %s rule of kind %s is combined with what earlier rules gave by %s; the documented semantics say `%s` (a later normal rule replaces earlier rules on the days it applies, additional rules and closed rules overlay, fallback rules only apply on days nothing else covered)" % (combo[0].lower(), combo[1].lower(), got or "nothing", want), lib.where_of(sa))
+
+
+def rule_r17(ctx, prog, res):
+    r17 = res.rule("C01.R17", "impossible days are moved to the nearest real day on the stated side and real days are left alone, in every year: valid_ymd_before(y, m, d) is the last day of month m of year y that is not after day d, valid_ymd_after(y, m, d) is day d itself or else the first day of the following month. Both helpers (iterator pipelines with a closure) are extracted per path from MIR (peval) and evaluated for every month and day 1..=31 of the years 1899, 1900, 2023, 2024, 2100, 9999 and 10000 - the years around both ends of the supported range included")
+    import peval
+    fns = {n: prog.fns.get("opening_hours::filter::date_filter::" + n) for n in ("valid_ymd_before", "valid_ymd_after")}
+    if None in fns.values():
+        r17.anchor_missing("date_filter::valid_ymd_before / valid_ymd_after")
+        return
+    ev = peval.Evaluator(prog, consts={"DATE_END": peval.DATE_END, "DATE_START": peval.DATE_START})
+    bad = {}
+    n = 0
+    try:
+        for y in (1899, 1900, 2023, 2024, 2100, 9999, 10000):
+            for m in range(1, 13):
+                dim = peval.days_in_month(y, m)
+                for d in range(1, 32):
+                    n += 2
+                    got = ev.run(fns["valid_ymd_before"], [y, m, d])
+                    want = (y, m, min(d, dim))
+                    if got != want:
+                        bad.setdefault("valid_ymd_before", ((y, m, d), got, want))
+                    got = ev.run(fns["valid_ymd_after"], [y, m, d])
+                    want = (y, m, d) if d <= dim else peval.succ((y, m, dim))
+                    if got != want:
+                        bad.setdefault("valid_ymd_after", ((y, m, d), got, want))
+    except peval.Unmodelled as ex:
+        r17.fail("C01.R17:unmodelled", "valid_ymd_before / valid_ymd_after cannot be evaluated from their MIR any more (%s): not decided, failing closed" % ex, lib.where_of(fns["valid_ymd_before"]))
+        return
+    for nm in ("valid_ymd_before", "valid_ymd_after"):
+        b = bad.get(nm)
+        r17.check(b is None, {"fn": nm, "evaluations": n // 2}, "C01.R17:%s" % nm, "" if b is None else "%s%r = %r, expected %r: a dated selector is moved to another day (e.g. the 1899 occurrence of `Jun 15` onto 1900-01-01)" % (nm, b[0], b[1], b[2]), lib.where_of(fns[nm]))
+    r17.floor(2)
